@@ -8,6 +8,11 @@ CHECKS = {
    text="Differential testing of tokenize() against an independent reference lexer plus range/partition invariants, over every string up to length 6-8 on three class-covering alphabets (tens of millions of strings, exhaustive) and proptest-generated token soups and Unicode texts. Exhaustive for short strings, sampled beyond; it cannot show absence of defects for longer inputs or unlisted character classes.",
    note="Trusts the reference lexer written from the property statement, Rust's char classification, and unicode-segmentation's grapheme segmentation.",
    ref="DESIGN.md section 3, C09"),
+ "C11": dict(
+   technique="bounded-exhaustive enumeration + property-based testing (proptest) against capture-avoiding substitution on named terms",
+   text="signed_shift / unsigned_shift / open / free_variables are compared with renaming and capture-avoiding substitution on named terms (globally fresh binder names) and with the algebraic laws of the property, for every hole-free term up to 5-6 nodes over all formers, every 1-3-definition group with leaf slots, a full grid of cutoffs, amounts, indices and inserted terms, and proptest-generated deeper terms. Exhaustive within the bound, sampled beyond.",
+   note="Trusts the named-term model (conversion by context of names; Barendregt convention) and the reading of open's shift argument stated in the evidence file.",
+   ref="DESIGN.md section 3, C11"),
 }
 NOT_YET = {}
 
